@@ -11,7 +11,7 @@ from ..alg import Sym, is_zero, Unsupported, PathRaised
 from ..order import Interp
 
 ATM = "typhon/physics/atmosphere.py"
-EXPECT = {"C09.moebius": 24, "C09.rh": 3, "C09.guard": 4, "C09.mixed": 6, "C09.lapse": 2, "C09.consts": 4, "C09.pure": 12}
+EXPECT = {"C09.moebius": 24, "C09.rh": 3, "C09.guard": 4, "C09.mixed": 6, "C09.lapse": 2, "C09.consts": 4, "C09.pure": 12, "C09.zerodim": 1}
 
 PAIRS = [("vmr2mixing_ratio", "mixing_ratio2vmr"), ("vmr2specific_humidity", "specific_humidity2vmr"),
          ("mixing_ratio2specific_humidity", "specific_humidity2mixing_ratio")]
@@ -289,8 +289,62 @@ def rule_consts(ctx):
         ctx.ob("constants.%s" % name, ok, "%s = %r" % (name, val), "%r (rel. 1e-4)" % ref, node=mod.tree, func=None)
 
 
+def rule_zero_dim(ctx):
+    """The masked stores of e_eq_mixed_mk need an array of at least one dimension: arithmetic on a 0-d array yields an (immutable)
+    numpy scalar.  The promotion of the argument therefore has to cover EVERY input of dimension zero - python numbers, numpy
+    scalars and 0-d arrays alike."""
+    ctx.rule("C09.zerodim", "T1 typestate", "e_eq_mixed_mk: every 0-dimensional input (number, numpy scalar, 0-d array) is promoted before the masked stores")
+    from ..flow import Flow, guard_chain
+    f = ctx.func(ATM, "e_eq_mixed_mk")
+    Tn = f.params[0]
+    flow = Flow(f)
+    stores = [st for st in flow.stmts if isinstance(st, ast.Assign) and isinstance(st.targets[0], ast.Subscript) and isinstance(st.targets[0].value, ast.Name)]
+    if not stores:
+        ctx.ob("e_eq_mixed_mk.zero_dim", True, "no masked store (np.select / np.where formulation)", "nothing to promote", node=f.node, func=f)
+        return
+    promos = []
+    for st in flow.stmts:
+        if isinstance(st, ast.Assign) and len(st.targets) == 1 and norm(st.targets[0]) == Tn and isinstance(st.value, ast.Call):
+            d = (dotted(st.value.func) or "").split(".")[-1]
+            a0 = st.value.args[0] if st.value.args else None
+            if d == "atleast_1d" and a0 is not None and norm(a0) == Tn:
+                promos.append((st, "always"))
+            elif d in ("asarray", "array") and isinstance(a0, (ast.List, ast.Tuple)) and len(a0.elts) == 1 and norm(a0.elts[0]) == Tn:
+                promos.append((st, "wrap"))
+    if not promos:
+        raise AnalysisError("e_eq_mixed_mk: masked stores but no promotion of `%s` to one dimension found" % Tn)
+    ZERO_DIM = ("np.ndim(%s) == 0", "np.ndim(%s) < 1", "not np.ndim(%s)", "np.shape(%s) == ()", "not np.shape(%s)", "np.asarray(%s).ndim == 0",
+                "np.asarray(%s).shape == ()", "np.isscalar(%s) or np.ndim(%s) == 0")
+    PARTIAL = ("isinstance(%s, Number)", "np.isscalar(%s)", "isinstance(%s, (int, float))", "isinstance(%s, float)", "isinstance(%s, numbers.Number)",
+               "isinstance(%s, (float, int))")
+
+    def fills(pats):
+        return [p_ % ((Tn,) * p_.count("%s")) for p_ in pats]
+    verdict = None
+    fact = None
+    for st, kind in promos:
+        if kind == "always" and not guard_chain(st):
+            verdict, fact = True, norm(st)
+            break
+        gc = guard_chain(st)
+        if len(gc) != 1 or not gc[0][1]:
+            raise AnalysisError("e_eq_mixed_mk: promotion %s under a guard that is not understood" % norm(st))
+        g = flow.resolve(gc[0][0], at=gc[0][0], depth=2, stop=(Tn,))
+        alts = g.values if isinstance(g, ast.BoolOp) and isinstance(g.op, ast.Or) else [g]
+        fact = "if %s: %s" % (norm(g), norm(st))
+        if any(any(norm(a_) == z_ for z_ in fills(ZERO_DIM)) for a_ in alts):
+            verdict = True
+        elif all(any(norm(a_) == z_ for z_ in fills(PARTIAL)) for a_ in alts):
+            verdict = False
+        else:
+            raise AnalysisError("e_eq_mixed_mk: promotion guard %s is not understood" % norm(g)[:80])
+    ctx.ob("e_eq_mixed_mk.zero_dim", bool(verdict), fact, "the promotion to one dimension happens for every input with np.ndim(T) == 0 "
+           "(`isinstance(T, Number)` misses 0-d arrays: the result of the arithmetic is then a numpy scalar and the masked store raises TypeError)",
+           node=promos[0][0], func=f, witness=None if verdict else {"T": "np.array(250.0)", "raises": "TypeError: 'numpy.float64' object does not support item assignment"})
+
+
 def run(ctx):
-    for r in (rule_moebius, rule_rh, rule_guard, rule_mixed, rule_lapse, rule_consts):
+    for r in (rule_moebius, rule_rh, rule_guard, rule_mixed, rule_lapse, rule_consts, rule_zero_dim):
         ctx.attempt(r, ctx)
     from ..purity import rule_pure
     names = sorted(set(a for p in PAIRS for a in p)) + ["relative_humidity2vmr", "vmr2relative_humidity", "e_eq_ice_mk", "e_eq_water_mk", "e_eq_mixed_mk", "moist_lapse_rate"]
